@@ -1922,4 +1922,499 @@ theorem intoResult_length (q : Q) : (intoResult q).length = min q.cfg.numResults
   unfold intoResult resCount
   exact List.length_take
 
+
+/-! ### the termination measure -/
+
+/-- Σ rank over the candidates. -/
+def msum (ps : List Peer) : Nat := (ps.map (fun e => e.state.rank)).sum
+
+/-- The termination measure `Σ rank + 4·(N − known)`: `N` is any bound on the number of
+candidates (ids the query will ever be told about); an id not yet known counts 4. -/
+def potential (N : Nat) (q : Q) : Nat := msum q.peers + 4 * (N - q.peers.length)
+
+theorem msum_cons (p : Peer) (ps : List Peer) : msum (p :: ps) = p.state.rank + msum ps := by
+  simp [msum]
+
+def emitBonus : LoopOut → Nat
+  | .emit _ => 1
+  | _ => 0
+
+theorem Rel2.length_eq {R : Peer → Peer → Prop} {as bs : List Peer} (h : Rel2 R as bs) :
+    bs.length = as.length := by
+  induction h with
+  | nil => rfl
+  | cons _ _ ih => simp [ih]
+
+theorem nextLoop_msum (v : Variant) (cfg : Config) (now : Nat) (cap : Bool) :
+    ∀ (ps : List Peer) (rc : Option Nat) (nw : Nat),
+      msum (nextLoop v cfg now cap ps rc nw).peers + emitBonus (nextLoop v cfg now cap ps rc nw).out ≤ msum ps
+  | [], rc, nw => by simp [nextLoop, msum, emitBonus]
+  | p :: ps, rc, nw => by
+    have lift : ∀ (p' : Peer) (rc' : Option Nat) (nw' : Nat), p'.state.rank ≤ p.state.rank →
+        let r := nextLoop v cfg now cap ps rc' nw'
+        msum (p' :: r.peers) + emitBonus r.out ≤ msum (p :: ps) := by
+      intro p' rc' nw' hle
+      have ih := nextLoop_msum v cfg now cap ps rc' nw'
+      simp only [msum_cons]
+      omega
+    unfold nextLoop
+    split
+    · rename_i hs
+      by_cases hc : (!cap) = true
+      · rw [if_pos hc]
+        simp only [msum_cons, emitBonus, hs, PState.rank]; omega
+      · rw [if_neg hc]; simp [emitBonus]
+    · rename_i t hs
+      by_cases ht : now ≥ t
+      · rw [if_pos ht]
+        exact lift { p with state := .unresponsive } rc (nw - 1) (by rw [hs]; simp [PState.rank])
+      · rw [if_neg ht]
+        by_cases hc : cap = true
+        · rw [if_pos hc]; simp [emitBonus]
+        · rw [if_neg hc]; exact lift p _ nw (Nat.le_refl _)
+    · split
+      · rename_i c
+        by_cases hcn : counts v p = true
+        · rw [if_pos hcn]
+          by_cases hge : c + 1 ≥ cfg.numResults
+          · rw [if_pos hge]; simp [emitBonus]
+          · rw [if_neg hge]; exact lift p _ nw (Nat.le_refl _)
+        · rw [if_neg hcn]; exact lift p _ nw (Nat.le_refl _)
+      · exact lift p _ nw (Nat.le_refl _)
+    · exact lift p _ nw (Nat.le_refl _)
+    · exact lift p _ nw (Nat.le_refl _)
+
+theorem msum_modifyAt {d : Nat} {f : Peer → Peer} {ps : List Peer} {e : Peer}
+    (h : lookup d ps = some e) :
+    msum (modifyAt d f ps) + e.state.rank = msum ps + (f e).state.rank := by
+  induction ps with
+  | nil => simp [lookup] at h
+  | cons x xs ih =>
+    unfold lookup at h
+    unfold modifyAt
+    by_cases hx : x.dist = d
+    · rw [if_pos hx] at h; cases h
+      rw [if_pos hx]
+      simp only [msum_cons]; omega
+    · rw [if_neg hx] at h
+      rw [if_neg hx]
+      have := ih h
+      simp only [msum_cons]; omega
+
+theorem msum_insertOr {p : Peer} (hp : p.state = .notContacted) : ∀ ps : List Peer,
+    msum (insertOr p ps) + 3 * ps.length = msum ps + 3 * (insertOr p ps).length
+  | [] => by simp [insertOr, msum, hp, PState.rank]
+  | e :: es => by
+    unfold insertOr
+    by_cases h1 : p.dist < e.dist
+    · rw [if_pos h1]; simp only [msum_cons, List.length_cons, hp, PState.rank]; omega
+    · rw [if_neg h1]
+      by_cases h2 : p.dist = e.dist
+      · rw [if_pos h2]
+      · rw [if_neg h2]
+        have := msum_insertOr hp es
+        simp only [msum_cons, List.length_cons]; omega
+
+theorem msum_incorporate (t nr nc : Nat) : ∀ (closer : List (Nat × Bool)) (acc : List Peer × Bool),
+    msum (incorporate t nr nc closer acc).1 + 3 * acc.1.length
+      = msum acc.1 + 3 * (incorporate t nr nc closer acc).1.length
+  | [], acc => by simp [incorporate]
+  | km :: rest, acc => by
+    unfold incorporate
+    have ih := msum_incorporate t nr nc rest
+      (insertOr (mkPeer t km.1 km.2) acc.1,
+        ((insertOr (mkPeer t km.1 km.2) acc.1).head?.map (·.dist)) == some (km.1 ^^^ t) || decide (nc < nr))
+    have h1 := msum_insertOr (p := mkPeer t km.1 km.2) rfl acc.1
+    dsimp only at ih ⊢
+    omega
+
+theorem incorporate_length_ge (t nr nc : Nat) : ∀ (closer : List (Nat × Bool)) (acc : List Peer × Bool),
+    acc.1.length ≤ (incorporate t nr nc closer acc).1.length
+  | [], acc => by simp [incorporate]
+  | km :: rest, acc => by
+    unfold incorporate
+    have ih := incorporate_length_ge t nr nc rest
+      (insertOr (mkPeer t km.1 km.2) acc.1,
+        ((insertOr (mkPeer t km.1 km.2) acc.1).head?.map (·.dist)) == some (km.1 ^^^ t) || decide (nc < nr))
+    have h1 := (length_insertOr (mkPeer t km.1 km.2) acc.1).1
+    dsimp only at ih ⊢
+    omega
+
+/-- `next` never increases the measure and strictly decreases it whenever it hands out a request. -/
+theorem potential_next (N : Nat) (q : Q) (now : Nat) :
+    potential N (next q now).1 ≤ potential N q ∧
+    (∀ k, (next q now).2 = .waiting (some k) → potential N (next q now).1 < potential N q) := by
+  unfold next
+  by_cases hf : q.progress.isFinished = true
+  · rw [if_pos hf]; exact ⟨Nat.le_refl _, by intro k hk; cases hk⟩
+  · rw [if_neg hf]
+    have hm := nextLoop_msum q.variant q.cfg now (atCapacity q) q.peers (some 0) q.numWaiting
+    have hl := (nextLoop_rel q.variant q.cfg now (atCapacity q) q.peers (some 0) q.numWaiting).length_eq
+    unfold finishNext potential
+    cases hL : (nextLoop q.variant q.cfg now (atCapacity q) q.peers (some 0) q.numWaiting).out with
+    | emit k' =>
+      rw [hL] at hm; simp only [emitBonus] at hm
+      dsimp only
+      rw [hl]
+      exact ⟨by omega, fun _ _ => by omega⟩
+    | atCap =>
+      rw [hL] at hm; simp only [emitBonus] at hm
+      dsimp only
+      rw [hl]
+      exact ⟨by omega, by intro k hk; cases hk⟩
+    | fin =>
+      rw [hL] at hm; simp only [emitBonus] at hm
+      dsimp only
+      rw [hl]
+      exact ⟨by omega, by intro k hk; cases hk⟩
+    | done =>
+      rw [hL] at hm; simp only [emitBonus] at hm
+      dsimp only
+      by_cases hz : (nextLoop q.variant q.cfg now (atCapacity q) q.peers (some 0) q.numWaiting).nw > 0
+      · rw [if_pos hz]; dsimp only; rw [hl]
+        exact ⟨by omega, by intro k hk; cases hk⟩
+      · rw [if_neg hz]; dsimp only; rw [hl]
+        exact ⟨by omega, by intro k hk; cases hk⟩
+
+/-- `on_failure` never increases the measure and strictly decreases it whenever it has an effect. -/
+theorem potential_failure (N : Nat) (q : Q) (p : Nat) :
+    potential N (onFailure q p) ≤ potential N q ∧
+    (onFailure q p ≠ q → potential N (onFailure q p) < potential N q) := by
+  have hnoop : potential N q ≤ potential N q ∧ (q ≠ q → potential N q < potential N q) :=
+    ⟨Nat.le_refl _, fun h => absurd rfl h⟩
+  unfold onFailure
+  by_cases hf : q.progress.isFinished = true
+  · rw [if_pos hf]; exact hnoop
+  · rw [if_neg hf]
+    cases hl : lookup (p ^^^ q.target) q.peers with
+    | none => exact hnoop
+    | some e =>
+      have hm := msum_modifyAt (f := markFailed) hl
+      have hlen := modifyAt_length (p ^^^ q.target) markFailed q.peers
+      dsimp only
+      cases hes : e.state with
+      | notContacted => exact hnoop
+      | failed => exact hnoop
+      | succeeded => exact hnoop
+      | waiting t =>
+        dsimp only
+        rw [hes] at hm; simp only [markFailed, PState.rank] at hm
+        unfold potential
+        dsimp only
+        rw [hlen]
+        exact ⟨by omega, fun _ => by omega⟩
+      | unresponsive =>
+        dsimp only
+        rw [hes] at hm; simp only [markFailed, PState.rank] at hm
+        cases hv : q.variant with
+        | closest =>
+          dsimp only
+          unfold potential
+          dsimp only
+          rw [hlen]
+          exact ⟨by omega, fun _ => by omega⟩
+        | predicate => exact hnoop
+
+/-- `on_success` never increases the measure and strictly decreases it whenever it has an effect
+(`N` bounds the number of candidates after the call: every newly learned id moves 4 units of
+budget to a `NotContacted` entry of rank 3). -/
+theorem potential_success (N : Nat) (q : Q) (p : Nat) (closer : List (Nat × Bool))
+    (hN : (onSuccess q p closer).peers.length ≤ N) :
+    potential N (onSuccess q p closer) ≤ potential N q ∧
+    (onSuccess q p closer ≠ q → potential N (onSuccess q p closer) < potential N q) := by
+  have hnoop : potential N q ≤ potential N q ∧ (q ≠ q → potential N q < potential N q) :=
+    ⟨Nat.le_refl _, fun h => absurd rfl h⟩
+  have heff : ∀ (nw' : Nat) (e : Peer), lookup (p ^^^ q.target) q.peers = some e → 1 ≤ e.state.rank →
+      (finishSuccess { q with numWaiting := nw' } (p ^^^ q.target) closer).peers.length ≤ N →
+      potential N (finishSuccess { q with numWaiting := nw' } (p ^^^ q.target) closer) < potential N q := by
+    intro nw' e hl hr hN'
+    let ps1 := modifyAt (p ^^^ q.target) (markSucceeded closer.length) q.peers
+    let r := incorporate q.target q.cfg.numResults ps1.length closer (ps1, false)
+    have hm : msum ps1 + e.state.rank = msum q.peers + 0 := msum_modifyAt (f := markSucceeded closer.length) hl
+    have hlen : ps1.length = q.peers.length := modifyAt_length _ _ _
+    have hi : msum r.1 + 3 * ps1.length = msum ps1 + 3 * r.1.length :=
+      msum_incorporate q.target q.cfg.numResults ps1.length closer (ps1, false)
+    have hsp : ps1.length ≤ r.1.length :=
+      incorporate_length_ge q.target q.cfg.numResults ps1.length closer (ps1, false)
+    have hN'' : r.1.length ≤ N := hN'
+    show msum r.1 + 4 * (N - r.1.length) < msum q.peers + 4 * (N - q.peers.length)
+    omega
+  unfold onSuccess at hN ⊢
+  by_cases hf : q.progress.isFinished = true
+  · rw [if_pos hf]; exact hnoop
+  · rw [if_neg hf] at hN ⊢
+    cases hl : lookup (p ^^^ q.target) q.peers with
+    | none => exact hnoop
+    | some e =>
+      rw [hl] at hN
+      dsimp only at hN ⊢
+      cases hes : e.state with
+      | notContacted => exact hnoop
+      | failed => exact hnoop
+      | succeeded => exact hnoop
+      | waiting t =>
+        rw [hes] at hN
+        dsimp only at hN ⊢
+        have := heff (q.numWaiting - 1) e hl (by rw [hes]; simp [PState.rank]) hN
+        exact ⟨Nat.le_of_lt this, fun _ => this⟩
+      | unresponsive =>
+        rw [hes] at hN
+        dsimp only at hN ⊢
+        have := heff q.numWaiting e hl (by rw [hes]; simp [PState.rank]) hN
+        exact ⟨Nat.le_of_lt this, fun _ => this⟩
+
+
+theorem next_peers (q : Q) (now : Nat) (hf : q.progress.isFinished = false) :
+    (next q now).1.peers = (nextLoop q.variant q.cfg now (atCapacity q) q.peers (some 0) q.numWaiting).peers := by
+  unfold next
+  rw [if_neg (by simp [hf])]
+  unfold finishNext
+  cases (nextLoop q.variant q.cfg now (atCapacity q) q.peers (some 0) q.numWaiting).out with
+  | emit k => rfl
+  | atCap => rfl
+  | fin => rfl
+  | done =>
+    dsimp only
+    by_cases hz : (nextLoop q.variant q.cfg now (atCapacity q) q.peers (some 0) q.numWaiting).nw > 0
+    · rw [if_pos hz]
+    · rw [if_neg hz]
+
+theorem nextR_rank {now pto : Nat} {o : LoopOut} {a b : Peer} (h : NextR now pto o a b) :
+    b.state.rank ≤ a.state.rank := by
+  rcases h with rfl | ⟨ha, rfl, _⟩ | ⟨t, ha, _, rfl⟩
+  · exact Nat.le_refl _
+  · rw [ha]; simp [PState.rank]
+  · rw [ha]; simp [PState.rank]
+
+/-- One event never raises the rank of a candidate (NotContacted 3 > Waiting 2 > Unresponsive 1 >
+Failed / Succeeded 0), and no candidate is ever dropped. -/
+theorem step_rank_le {q : Q} (hs : Sorted q.peers) (ev : Ev) :
+    ∀ e ∈ q.peers, ∃ e' ∈ (stepQ q ev).1.peers,
+      e'.key = e.key ∧ e'.dist = e.dist ∧ e'.state.rank ≤ e.state.rank := by
+  have hsame : ∀ e ∈ q.peers, ∃ e' ∈ q.peers, e'.key = e.key ∧ e'.dist = e.dist ∧ e'.state.rank ≤ e.state.rank :=
+    fun e he => ⟨e, he, rfl, rfl, Nat.le_refl _⟩
+  cases ev with
+  | next now =>
+    show ∀ e ∈ q.peers, ∃ e' ∈ (next q now).1.peers, _
+    by_cases hf : q.progress.isFinished = true
+    · have : (next q now).1 = q := by simp [next, hf]
+      rw [this]; exact hsame
+    · rw [next_peers q now (by simpa using hf)]
+      intro e he
+      obtain ⟨b, hb, hab⟩ := (nextLoop_rel q.variant q.cfg now (atCapacity q) q.peers (some 0) q.numWaiting).fwd e he
+      exact ⟨b, hb, (nextR_key hab).1, (nextR_key hab).2.1, nextR_rank hab⟩
+  | success p closer =>
+    show ∀ e ∈ q.peers, ∃ e' ∈ (onSuccess q p closer).peers, _
+    have heff : ∀ nw', ∀ e ∈ q.peers, ∃ e' ∈ (finishSuccess { q with numWaiting := nw' } (p ^^^ q.target) closer).peers,
+        e'.key = e.key ∧ e'.dist = e.dist ∧ e'.state.rank ≤ e.state.rank := by
+      intro nw' e he
+      have hrel := modifyAt_rel (p ^^^ q.target) (markSucceeded closer.length) q.peers
+      have hs1 : Sorted (modifyAt (p ^^^ q.target) (markSucceeded closer.length) q.peers) := by
+        rw [sorted_iff_map, Rel2.map_eq (·.dist) (fun a b hab => (modR_succ_key hab).2.1) hrel, ← sorted_iff_map]
+        exact hs
+      obtain ⟨b, hb, hab⟩ := hrel.fwd e he
+      have hmem := (incorporate_spec q.target q.cfg.numResults
+        (modifyAt (p ^^^ q.target) (markSucceeded closer.length) q.peers).length closer
+        (modifyAt (p ^^^ q.target) (markSucceeded closer.length) q.peers, false) hs1).2.1 b hb
+      refine ⟨b, hmem, (modR_succ_key hab).1, (modR_succ_key hab).2.1, ?_⟩
+      rcases hab with rfl | ⟨_, rfl⟩
+      · exact Nat.le_refl _
+      · simp [markSucceeded, PState.rank]
+    unfold onSuccess
+    by_cases hf : q.progress.isFinished = true
+    · rw [if_pos hf]; exact hsame
+    · rw [if_neg hf]
+      cases hl : lookup (p ^^^ q.target) q.peers with
+      | none => exact hsame
+      | some e0 =>
+        dsimp only
+        cases hes : e0.state with
+        | notContacted => exact hsame
+        | failed => exact hsame
+        | succeeded => exact hsame
+        | waiting t => exact heff _
+        | unresponsive => exact heff _
+  | failure p =>
+    show ∀ e ∈ q.peers, ∃ e' ∈ (onFailure q p).peers, _
+    have heff : ∀ e ∈ q.peers, ∃ e' ∈ modifyAt (p ^^^ q.target) markFailed q.peers,
+        e'.key = e.key ∧ e'.dist = e.dist ∧ e'.state.rank ≤ e.state.rank := by
+      intro e he
+      obtain ⟨b, hb, hab⟩ := (modifyAt_rel (p ^^^ q.target) markFailed q.peers).fwd e he
+      refine ⟨b, hb, (modR_fail_key hab).1, (modR_fail_key hab).2.1, ?_⟩
+      rcases hab with rfl | ⟨_, rfl⟩
+      · exact Nat.le_refl _
+      · simp [markFailed, PState.rank]
+    unfold onFailure
+    by_cases hf : q.progress.isFinished = true
+    · rw [if_pos hf]; exact hsame
+    · rw [if_neg hf]
+      cases hl : lookup (p ^^^ q.target) q.peers with
+      | none => exact hsame
+      | some e0 =>
+        dsimp only
+        cases hes : e0.state with
+        | notContacted => exact hsame
+        | failed => exact hsame
+        | succeeded => exact hsame
+        | waiting t => exact heff
+        | unresponsive =>
+          dsimp only
+          cases hv : q.variant with
+          | closest => exact heff
+          | predicate => exact hsame
+
+
+/-! ### queries inside the pool are reachable query states -/
+
+/-- `q` is the state of some query after some history of `next` / `on_success` / `on_failure`
+calls from its constructor. -/
+def Reach (q : Q) : Prop :=
+  ∃ v cfg t known evs, q = runQ (withConfig v cfg t known) evs
+
+theorem Reach.step {q : Q} (h : Reach q) (ev : Ev) : Reach (stepQ q ev).1 := by
+  obtain ⟨v, cfg, t, known, evs, rfl⟩ := h
+  exact ⟨v, cfg, t, known, evs ++ [ev], by rw [runQ_append]; rfl⟩
+
+theorem reach_replaceQ {x' : PQ} {qs : List PQ} (hq : ∀ y ∈ qs, Reach y.q) (hx : Reach x'.q) :
+    ∀ y ∈ replaceQ x' qs, Reach y.q := by
+  intro y hy
+  rcases mem_replaceQ hy with rfl | h
+  · exact hx
+  · exact hq y h
+
+theorem reach_pollLoop (timeout now : Nat) : ∀ (order : List Nat) (qs : List PQ),
+    (∀ y ∈ qs, Reach y.q) → ∀ y ∈ (pollLoop timeout now order qs).1, Reach y.q
+  | [], qs, h => h
+  | i :: rest, qs, h => by
+    unfold pollLoop
+    cases hfind : qs.find? (fun x => x.id == i) with
+    | none => exact reach_pollLoop timeout now rest qs h
+    | some x =>
+      obtain ⟨hxm, _⟩ := find_id hfind
+      have hx' : Reach (next x.q now).1 := (h x hxm).step (.next now)
+      have hq' := reach_replaceQ (x' := { x with q := (next x.q now).1, started := some (x.started.getD now) }) h hx'
+      dsimp only
+      cases hst : (next x.q now).2 with
+      | finished => exact hq'
+      | waitingAtCapacity =>
+        dsimp only
+        by_cases hto : now - x.started.getD now ≥ timeout
+        · rw [if_pos hto]; exact hq'
+        · rw [if_neg hto]; exact reach_pollLoop timeout now rest _ hq'
+      | waiting o =>
+        cases o with
+        | some k => exact hq'
+        | none =>
+          dsimp only
+          by_cases hto : now - x.started.getD now ≥ timeout
+          · rw [if_pos hto]; exact hq'
+          · rw [if_neg hto]; exact reach_pollLoop timeout now rest _ hq'
+
+/-- The query carried by a `Finished` / `Timeout` return value. -/
+def retQuery : PoolOut → Option Q
+  | .finished _ q => some q
+  | .timeout _ q => some q
+  | _ => none
+
+theorem reach_poll (p : Pool) (now : Nat) (order : List Nat) (h : ∀ y ∈ p.queries, Reach y.q) :
+    (∀ y ∈ (p.poll now order).1.queries, Reach y.q) ∧
+    (∀ q, retQuery (p.poll now order).2 = some q → Reach q) := by
+  have hl := reach_pollLoop p.timeout now order p.queries h
+  have hrem : ∀ i, ∀ y ∈ removeQ i (pollLoop p.timeout now order p.queries).1, Reach y.q := by
+    intro i y hy
+    unfold removeQ at hy
+    exact hl y (List.mem_filter.mp hy).1
+  unfold Pool.poll
+  dsimp only
+  cases hb : (pollLoop p.timeout now order p.queries).2 with
+  | none =>
+    dsimp only
+    refine ⟨hl, ?_⟩
+    intro q hq
+    by_cases he : (pollLoop p.timeout now order p.queries).1.isEmpty = true
+    · rw [if_pos he] at hq; cases hq
+    · rw [if_neg he] at hq; cases hq
+  | wait i k => exact ⟨hl, by intro q hq; cases hq⟩
+  | fin i =>
+    dsimp only
+    cases hfind : (pollLoop p.timeout now order p.queries).1.find? (fun x => x.id == i) with
+    | none => exact ⟨hl, by intro q hq; cases hq⟩
+    | some x =>
+      dsimp only
+      refine ⟨hrem i, ?_⟩
+      intro q hq
+      cases hq
+      exact hl x (find_id hfind).1
+  | tmo i =>
+    dsimp only
+    cases hfind : (pollLoop p.timeout now order p.queries).1.find? (fun x => x.id == i) with
+    | none => exact ⟨hl, by intro q hq; cases hq⟩
+    | some x =>
+      dsimp only
+      refine ⟨hrem i, ?_⟩
+      intro q hq
+      cases hq
+      exact hl x (find_id hfind).1
+
+theorem reach_stepP {p : Pool} (h : ∀ y ∈ p.queries, Reach y.q) (ev : PEv) :
+    (∀ y ∈ (stepP p ev).1.queries, Reach y.q) ∧
+    (∀ o q, (stepP p ev).2 = some o → retQuery o = some q → Reach q) := by
+  cases ev with
+  | add v cfg t known =>
+    refine ⟨?_, by intro o q ho; cases ho⟩
+    intro y hy
+    have hy' : y ∈ (⟨p.nextId, withConfig v cfg t known, none⟩ : PQ) :: p.queries.filter (fun x => x.id != p.nextId) := hy
+    rcases List.mem_cons.mp hy' with rfl | h'
+    · exact ⟨v, cfg, t, known, [], rfl⟩
+    · exact h y (List.mem_filter.mp h').1
+  | poll now order =>
+    obtain ⟨h1, h2⟩ := reach_poll p now order h
+    refine ⟨h1, ?_⟩
+    intro o q ho hq
+    have : o = (p.poll now order).2 := by
+      have : (stepP p (.poll now order)).2 = some (p.poll now order).2 := rfl
+      rw [this] at ho; cases ho; rfl
+    rw [this] at hq
+    exact h2 q hq
+  | success id peer closer =>
+    refine ⟨?_, by intro o q ho; cases ho⟩
+    show ∀ y ∈ (p.onSuccess id peer closer).queries, Reach y.q
+    unfold Pool.onSuccess
+    cases hg : p.get id with
+    | none => exact h
+    | some x =>
+      dsimp only
+      have hxm := (find_id (show p.queries.find? (fun y => y.id == id) = some x from hg)).1
+      exact reach_replaceQ h ((h x hxm).step (.success peer closer))
+  | failure id peer =>
+    refine ⟨?_, by intro o q ho; cases ho⟩
+    show ∀ y ∈ (p.onFailure id peer).queries, Reach y.q
+    unfold Pool.onFailure
+    cases hg : p.get id with
+    | none => exact h
+    | some x =>
+      dsimp only
+      have hxm := (find_id (show p.queries.find? (fun y => y.id == id) = some x from hg)).1
+      exact reach_replaceQ h ((h x hxm).step (.failure peer))
+
+theorem reach_runP : ∀ (evs : List PEv) (p : Pool), (∀ y ∈ p.queries, Reach y.q) →
+    (∀ y ∈ (runP p evs).queries, Reach y.q) ∧
+    (∀ o ∈ outsP p evs, ∀ q, retQuery o = some q → Reach q)
+  | [], p, h => ⟨h, by intro o ho; cases ho⟩
+  | ev :: evs, p, h => by
+    obtain ⟨h1, h2⟩ := reach_stepP h ev
+    obtain ⟨i1, i2⟩ := reach_runP evs (stepP p ev).1 h1
+    refine ⟨i1, ?_⟩
+    intro o ho q hq
+    rw [outsP_cons] at ho
+    rcases List.mem_append.mp ho with h' | h'
+    · cases hso : (stepP p ev).2 with
+      | none => rw [hso] at h'; simp at h'
+      | some o' =>
+        rw [hso] at h'
+        simp at h'
+        subst h'
+        exact h2 o q hso hq
+    · exact i2 o h' q hq
+
 end Discv5.Query
